@@ -372,11 +372,12 @@ pub proof fn lemma_clz_all(a: Felt, hint: Felt)
         let m = fadd(mask0, bit);
         &&& (h <= 32 ==> e == 32 - h && 1 <= p <= 0x1_0000_0000 && mask0 == 0x1_0000_0000 - p && bit == clz_bit(h)
                 && m == clz_mask(h) && 0 <= m < 0x1_0000_0000 && 0 <= bit < 0x1_0000_0000
-                && ((((a.val() as u64) & (m as u64)) as int == bit) <==> clz_is(a.val(), h))
-                && ((((a.val() as u64) & (m as u64)) as int == mask0) <==> clz_is(0xFFFF_FFFF - a.val(), h)))
+                && (((m as u64) & (a.val() as u64)) as int) < 0x1_0000_0000
+                && ((((m as u64) & (a.val() as u64)) as int == bit) <==> clz_is(a.val(), h))
+                && ((((m as u64) & (a.val() as u64)) as int == mask0) <==> clz_is(0xFFFF_FFFF - a.val(), h)))
         &&& (h > 32 ==> !clz_is(a.val(), h) && !clz_is(0xFFFF_FFFF - a.val(), h))
         &&& ((h > 32 && e <= 63) ==> 33 <= e && p < P() && bit < P() && mask0 < P() && 0x1_0000_0000 <= bit
-                && (m >= 0x1_0000_0000 || m == 0))
+                && (m >= 0x1_0000_0000 || (m == 0 && ((m as u64) & (a.val() as u64)) == 0)))
     })
 {
     broadcast use felt_model::felt_axioms;
@@ -391,6 +392,9 @@ pub proof fn lemma_clz_all(a: Felt, hint: Felt)
         let p = p2(e);
         if e == 32 { assert(p == 0x1_0000_0000); } else { assert(p <= 0x8000_0000); }
         lemma_clz_mask(a.val() as u64, h);
+        let au = a.val() as u64; let mu = clz_mask(h) as u64;
+        assert((au & mu) == (mu & au)) by (bit_vector);
+        assert(mu < 0x1_0000_0000 ==> (mu & au) < 0x1_0000_0000) by (bit_vector);
         assert(fneg(p) == P() - p);
         assert(fadd(0x1_0000_0000, fneg(p)) == 0x1_0000_0000 - p);
         assert(clz_mask(h) == 0x1_0000_0000 - p + p / 2);
@@ -414,6 +418,8 @@ pub proof fn lemma_clz_all(a: Felt, hint: Felt)
             assert(mask0 == 0x1_0000_0000 + P() - p);
             let bit = p / 2;
             assert(p == 2 * bit) by { lemma_p2_add(1, e - 1); assert(p2(1) == 2) by (compute_only); }
+            let au = a.val() as u64;
+            assert((0u64 & au) == 0) by (bit_vector);
             if e == 33 { assert(fadd(mask0, bit) == 0); } else {
                 lemma_p2_add(34, e - 34); lemma_p2_add(e - 34, 0);
                 assert(p2(34) == 0x4_0000_0000) by (compute_only);
@@ -423,3 +429,231 @@ pub proof fn lemma_clz_all(a: Felt, hint: Felt)
         }
     }
 }
+/// u32ctz / u32cto: p = 2^hint, low = p - 1, bit = p mod 2^32, m = low + bit
+pub proof fn lemma_ctz_all(a: Felt, hint: Felt)
+    requires is_u32(a)
+    ensures ({
+        let h = hint.val();
+        let p = p2(h);
+        let low = fadd(p, fneg(1));
+        let bit = p % 0x1_0000_0000;
+        let m = fadd(low, bit);
+        &&& (h <= 63 ==> 1 <= p < P() && low == p - 1 && 0 <= bit < 0x1_0000_0000 && m == low + bit)
+        &&& (h <= 32 ==> bit == ctz_bit(h) && m == ctz_mask(h) && 0 <= m < 0x1_0000_0000
+                && (((m as u64) & (a.val() as u64)) as int) < 0x1_0000_0000
+                && ((((m as u64) & (a.val() as u64)) as int == bit) <==> ctz_is(a.val(), h))
+                && ((((m as u64) & (a.val() as u64)) as int == low) <==> ctz_is(0xFFFF_FFFF - a.val(), h)))
+        &&& (h > 32 ==> !ctz_is(a.val(), h) && !ctz_is(0xFFFF_FFFF - a.val(), h))
+        &&& ((32 < h && h <= 63) ==> m >= 0x1_0000_0000)
+    })
+{
+    broadcast use felt_model::felt_axioms;
+    let h = hint.val();
+    if h <= 63 {
+        lemma_p2_bits(h);
+        lemma_p2_split(h);
+        lemma_p2_consts();
+        let p = p2(h);
+        assert(fneg(1) == P() - 1);
+        assert(fadd(p, fneg(1)) == p - 1);
+        if h <= 32 {
+            if h == 32 { assert(p == 0x1_0000_0000); } else { assert(p <= 0x8000_0000); }
+            lemma_ctz_mask(a.val() as u64, h);
+            let au = a.val() as u64; let mu = ctz_mask(h) as u64;
+            assert((au & mu) == (mu & au)) by (bit_vector);
+            assert(mu < 0x1_0000_0000 ==> (mu & au) < 0x1_0000_0000) by (bit_vector);
+            assert(fadd(p - 1, p % 0x1_0000_0000) == p - 1 + p % 0x1_0000_0000);
+        } else {
+            assert(p % 0x1_0000_0000 == 0);
+            lemma_p2_add(33, h - 33); lemma_p2_add(h - 33, 0);
+            assert(p2(33) == 0x2_0000_0000) by (compute_only);
+            assert(p >= 0x2_0000_0000) by (nonlinear_arith) requires p == p2(33) * p2(h - 33), p2(33) == 0x2_0000_0000, p2(h - 33) >= 1;
+            assert(fadd(p - 1, 0) == p - 1);
+        }
+    }
+}
+// ---- ilog2 (after fix 2828082): bit k set and nothing above it  <==>  2^k <= x < 2^(k+1)  (32 generated cases)
+pub proof fn lemma_ilog_mask(x: u64, k: int)
+    requires x < 0x1_0000_0000, 0 <= k <= 31
+    ensures 1 <= p2(k) <= 0x8000_0000, 2 * p2(k) - 1 < 0x1_0000_0000,
+        (((p2(k) as u64) & x) == p2(k) as u64 && (((2 * p2(k) - 1) as u64) & x) == x) <==> (p2(k) <= x as int && (x as int) < 2 * p2(k)),
+        (((p2(k) as u64) & x) as int) < 0x1_0000_0000, ((((2 * p2(k) - 1) as u64) & x) as int) < 0x1_0000_0000,
+{
+    if k == 0 {
+        assert(p2(0) == 1) by (compute_only);
+        assert(x < 0x1_0000_0000 ==> ((((1u64 & x) == 1u64) && ((1u64 & x) == x)) <==> (1u64 <= x && x < 2u64))) by (bit_vector);
+        assert((1u64 & x) < 0x1_0000_0000 && (1u64 & x) < 0x1_0000_0000) by (bit_vector);
+    } else if k == 1 {
+        assert(p2(1) == 2) by (compute_only);
+        assert(x < 0x1_0000_0000 ==> ((((2u64 & x) == 2u64) && ((3u64 & x) == x)) <==> (2u64 <= x && x < 4u64))) by (bit_vector);
+        assert((2u64 & x) < 0x1_0000_0000 && (3u64 & x) < 0x1_0000_0000) by (bit_vector);
+    } else if k == 2 {
+        assert(p2(2) == 4) by (compute_only);
+        assert(x < 0x1_0000_0000 ==> ((((4u64 & x) == 4u64) && ((7u64 & x) == x)) <==> (4u64 <= x && x < 8u64))) by (bit_vector);
+        assert((4u64 & x) < 0x1_0000_0000 && (7u64 & x) < 0x1_0000_0000) by (bit_vector);
+    } else if k == 3 {
+        assert(p2(3) == 8) by (compute_only);
+        assert(x < 0x1_0000_0000 ==> ((((8u64 & x) == 8u64) && ((15u64 & x) == x)) <==> (8u64 <= x && x < 16u64))) by (bit_vector);
+        assert((8u64 & x) < 0x1_0000_0000 && (15u64 & x) < 0x1_0000_0000) by (bit_vector);
+    } else if k == 4 {
+        assert(p2(4) == 16) by (compute_only);
+        assert(x < 0x1_0000_0000 ==> ((((16u64 & x) == 16u64) && ((31u64 & x) == x)) <==> (16u64 <= x && x < 32u64))) by (bit_vector);
+        assert((16u64 & x) < 0x1_0000_0000 && (31u64 & x) < 0x1_0000_0000) by (bit_vector);
+    } else if k == 5 {
+        assert(p2(5) == 32) by (compute_only);
+        assert(x < 0x1_0000_0000 ==> ((((32u64 & x) == 32u64) && ((63u64 & x) == x)) <==> (32u64 <= x && x < 64u64))) by (bit_vector);
+        assert((32u64 & x) < 0x1_0000_0000 && (63u64 & x) < 0x1_0000_0000) by (bit_vector);
+    } else if k == 6 {
+        assert(p2(6) == 64) by (compute_only);
+        assert(x < 0x1_0000_0000 ==> ((((64u64 & x) == 64u64) && ((127u64 & x) == x)) <==> (64u64 <= x && x < 128u64))) by (bit_vector);
+        assert((64u64 & x) < 0x1_0000_0000 && (127u64 & x) < 0x1_0000_0000) by (bit_vector);
+    } else if k == 7 {
+        assert(p2(7) == 128) by (compute_only);
+        assert(x < 0x1_0000_0000 ==> ((((128u64 & x) == 128u64) && ((255u64 & x) == x)) <==> (128u64 <= x && x < 256u64))) by (bit_vector);
+        assert((128u64 & x) < 0x1_0000_0000 && (255u64 & x) < 0x1_0000_0000) by (bit_vector);
+    } else if k == 8 {
+        assert(p2(8) == 256) by (compute_only);
+        assert(x < 0x1_0000_0000 ==> ((((256u64 & x) == 256u64) && ((511u64 & x) == x)) <==> (256u64 <= x && x < 512u64))) by (bit_vector);
+        assert((256u64 & x) < 0x1_0000_0000 && (511u64 & x) < 0x1_0000_0000) by (bit_vector);
+    } else if k == 9 {
+        assert(p2(9) == 512) by (compute_only);
+        assert(x < 0x1_0000_0000 ==> ((((512u64 & x) == 512u64) && ((1023u64 & x) == x)) <==> (512u64 <= x && x < 1024u64))) by (bit_vector);
+        assert((512u64 & x) < 0x1_0000_0000 && (1023u64 & x) < 0x1_0000_0000) by (bit_vector);
+    } else if k == 10 {
+        assert(p2(10) == 1024) by (compute_only);
+        assert(x < 0x1_0000_0000 ==> ((((1024u64 & x) == 1024u64) && ((2047u64 & x) == x)) <==> (1024u64 <= x && x < 2048u64))) by (bit_vector);
+        assert((1024u64 & x) < 0x1_0000_0000 && (2047u64 & x) < 0x1_0000_0000) by (bit_vector);
+    } else if k == 11 {
+        assert(p2(11) == 2048) by (compute_only);
+        assert(x < 0x1_0000_0000 ==> ((((2048u64 & x) == 2048u64) && ((4095u64 & x) == x)) <==> (2048u64 <= x && x < 4096u64))) by (bit_vector);
+        assert((2048u64 & x) < 0x1_0000_0000 && (4095u64 & x) < 0x1_0000_0000) by (bit_vector);
+    } else if k == 12 {
+        assert(p2(12) == 4096) by (compute_only);
+        assert(x < 0x1_0000_0000 ==> ((((4096u64 & x) == 4096u64) && ((8191u64 & x) == x)) <==> (4096u64 <= x && x < 8192u64))) by (bit_vector);
+        assert((4096u64 & x) < 0x1_0000_0000 && (8191u64 & x) < 0x1_0000_0000) by (bit_vector);
+    } else if k == 13 {
+        assert(p2(13) == 8192) by (compute_only);
+        assert(x < 0x1_0000_0000 ==> ((((8192u64 & x) == 8192u64) && ((16383u64 & x) == x)) <==> (8192u64 <= x && x < 16384u64))) by (bit_vector);
+        assert((8192u64 & x) < 0x1_0000_0000 && (16383u64 & x) < 0x1_0000_0000) by (bit_vector);
+    } else if k == 14 {
+        assert(p2(14) == 16384) by (compute_only);
+        assert(x < 0x1_0000_0000 ==> ((((16384u64 & x) == 16384u64) && ((32767u64 & x) == x)) <==> (16384u64 <= x && x < 32768u64))) by (bit_vector);
+        assert((16384u64 & x) < 0x1_0000_0000 && (32767u64 & x) < 0x1_0000_0000) by (bit_vector);
+    } else if k == 15 {
+        assert(p2(15) == 32768) by (compute_only);
+        assert(x < 0x1_0000_0000 ==> ((((32768u64 & x) == 32768u64) && ((65535u64 & x) == x)) <==> (32768u64 <= x && x < 65536u64))) by (bit_vector);
+        assert((32768u64 & x) < 0x1_0000_0000 && (65535u64 & x) < 0x1_0000_0000) by (bit_vector);
+    } else if k == 16 {
+        assert(p2(16) == 65536) by (compute_only);
+        assert(x < 0x1_0000_0000 ==> ((((65536u64 & x) == 65536u64) && ((131071u64 & x) == x)) <==> (65536u64 <= x && x < 131072u64))) by (bit_vector);
+        assert((65536u64 & x) < 0x1_0000_0000 && (131071u64 & x) < 0x1_0000_0000) by (bit_vector);
+    } else if k == 17 {
+        assert(p2(17) == 131072) by (compute_only);
+        assert(x < 0x1_0000_0000 ==> ((((131072u64 & x) == 131072u64) && ((262143u64 & x) == x)) <==> (131072u64 <= x && x < 262144u64))) by (bit_vector);
+        assert((131072u64 & x) < 0x1_0000_0000 && (262143u64 & x) < 0x1_0000_0000) by (bit_vector);
+    } else if k == 18 {
+        assert(p2(18) == 262144) by (compute_only);
+        assert(x < 0x1_0000_0000 ==> ((((262144u64 & x) == 262144u64) && ((524287u64 & x) == x)) <==> (262144u64 <= x && x < 524288u64))) by (bit_vector);
+        assert((262144u64 & x) < 0x1_0000_0000 && (524287u64 & x) < 0x1_0000_0000) by (bit_vector);
+    } else if k == 19 {
+        assert(p2(19) == 524288) by (compute_only);
+        assert(x < 0x1_0000_0000 ==> ((((524288u64 & x) == 524288u64) && ((1048575u64 & x) == x)) <==> (524288u64 <= x && x < 1048576u64))) by (bit_vector);
+        assert((524288u64 & x) < 0x1_0000_0000 && (1048575u64 & x) < 0x1_0000_0000) by (bit_vector);
+    } else if k == 20 {
+        assert(p2(20) == 1048576) by (compute_only);
+        assert(x < 0x1_0000_0000 ==> ((((1048576u64 & x) == 1048576u64) && ((2097151u64 & x) == x)) <==> (1048576u64 <= x && x < 2097152u64))) by (bit_vector);
+        assert((1048576u64 & x) < 0x1_0000_0000 && (2097151u64 & x) < 0x1_0000_0000) by (bit_vector);
+    } else if k == 21 {
+        assert(p2(21) == 2097152) by (compute_only);
+        assert(x < 0x1_0000_0000 ==> ((((2097152u64 & x) == 2097152u64) && ((4194303u64 & x) == x)) <==> (2097152u64 <= x && x < 4194304u64))) by (bit_vector);
+        assert((2097152u64 & x) < 0x1_0000_0000 && (4194303u64 & x) < 0x1_0000_0000) by (bit_vector);
+    } else if k == 22 {
+        assert(p2(22) == 4194304) by (compute_only);
+        assert(x < 0x1_0000_0000 ==> ((((4194304u64 & x) == 4194304u64) && ((8388607u64 & x) == x)) <==> (4194304u64 <= x && x < 8388608u64))) by (bit_vector);
+        assert((4194304u64 & x) < 0x1_0000_0000 && (8388607u64 & x) < 0x1_0000_0000) by (bit_vector);
+    } else if k == 23 {
+        assert(p2(23) == 8388608) by (compute_only);
+        assert(x < 0x1_0000_0000 ==> ((((8388608u64 & x) == 8388608u64) && ((16777215u64 & x) == x)) <==> (8388608u64 <= x && x < 16777216u64))) by (bit_vector);
+        assert((8388608u64 & x) < 0x1_0000_0000 && (16777215u64 & x) < 0x1_0000_0000) by (bit_vector);
+    } else if k == 24 {
+        assert(p2(24) == 16777216) by (compute_only);
+        assert(x < 0x1_0000_0000 ==> ((((16777216u64 & x) == 16777216u64) && ((33554431u64 & x) == x)) <==> (16777216u64 <= x && x < 33554432u64))) by (bit_vector);
+        assert((16777216u64 & x) < 0x1_0000_0000 && (33554431u64 & x) < 0x1_0000_0000) by (bit_vector);
+    } else if k == 25 {
+        assert(p2(25) == 33554432) by (compute_only);
+        assert(x < 0x1_0000_0000 ==> ((((33554432u64 & x) == 33554432u64) && ((67108863u64 & x) == x)) <==> (33554432u64 <= x && x < 67108864u64))) by (bit_vector);
+        assert((33554432u64 & x) < 0x1_0000_0000 && (67108863u64 & x) < 0x1_0000_0000) by (bit_vector);
+    } else if k == 26 {
+        assert(p2(26) == 67108864) by (compute_only);
+        assert(x < 0x1_0000_0000 ==> ((((67108864u64 & x) == 67108864u64) && ((134217727u64 & x) == x)) <==> (67108864u64 <= x && x < 134217728u64))) by (bit_vector);
+        assert((67108864u64 & x) < 0x1_0000_0000 && (134217727u64 & x) < 0x1_0000_0000) by (bit_vector);
+    } else if k == 27 {
+        assert(p2(27) == 134217728) by (compute_only);
+        assert(x < 0x1_0000_0000 ==> ((((134217728u64 & x) == 134217728u64) && ((268435455u64 & x) == x)) <==> (134217728u64 <= x && x < 268435456u64))) by (bit_vector);
+        assert((134217728u64 & x) < 0x1_0000_0000 && (268435455u64 & x) < 0x1_0000_0000) by (bit_vector);
+    } else if k == 28 {
+        assert(p2(28) == 268435456) by (compute_only);
+        assert(x < 0x1_0000_0000 ==> ((((268435456u64 & x) == 268435456u64) && ((536870911u64 & x) == x)) <==> (268435456u64 <= x && x < 536870912u64))) by (bit_vector);
+        assert((268435456u64 & x) < 0x1_0000_0000 && (536870911u64 & x) < 0x1_0000_0000) by (bit_vector);
+    } else if k == 29 {
+        assert(p2(29) == 536870912) by (compute_only);
+        assert(x < 0x1_0000_0000 ==> ((((536870912u64 & x) == 536870912u64) && ((1073741823u64 & x) == x)) <==> (536870912u64 <= x && x < 1073741824u64))) by (bit_vector);
+        assert((536870912u64 & x) < 0x1_0000_0000 && (1073741823u64 & x) < 0x1_0000_0000) by (bit_vector);
+    } else if k == 30 {
+        assert(p2(30) == 1073741824) by (compute_only);
+        assert(x < 0x1_0000_0000 ==> ((((1073741824u64 & x) == 1073741824u64) && ((2147483647u64 & x) == x)) <==> (1073741824u64 <= x && x < 2147483648u64))) by (bit_vector);
+        assert((1073741824u64 & x) < 0x1_0000_0000 && (2147483647u64 & x) < 0x1_0000_0000) by (bit_vector);
+    } else if k == 31 {
+        assert(p2(31) == 2147483648) by (compute_only);
+        assert(x < 0x1_0000_0000 ==> ((((2147483648u64 & x) == 2147483648u64) && ((4294967295u64 & x) == x)) <==> (2147483648u64 <= x && x < 4294967296u64))) by (bit_vector);
+        assert((2147483648u64 & x) < 0x1_0000_0000 && (4294967295u64 & x) < 0x1_0000_0000) by (bit_vector);
+    }
+}
+/// h is the integer logarithm of n
+pub open spec fn ilog2_is(n: int, h: int) -> bool { 0 <= h <= 63 && p2(h) <= n < 2 * p2(h) }
+/// the three in-VM checks of ilog2 on the halves of n and 2^hint, for EVERY hint
+pub proof fn lemma_ilog2_all(n: Felt, hint: Felt)
+    ensures ({
+        let h = hint.val();
+        let p = p2(h);
+        let nh = n.val() / 0x1_0000_0000; let nl = n.val() % 0x1_0000_0000;
+        let ph = p / 0x1_0000_0000; let pl = p % 0x1_0000_0000;
+        let d = if pl == 0 { 1int } else { 0int };
+        let phalf = if d == 1 { ph } else { pl };
+        let nhalf = if d == 1 { nh } else { nl };
+        &&& (h > 63 ==> !ilog2_is(n.val(), h))
+        &&& (h <= 63 ==> 1 <= p < P() && 0 <= ph < 0x1_0000_0000 && 0 <= pl < 0x1_0000_0000 && 0 <= nh < 0x1_0000_0000 && 0 <= nl < 0x1_0000_0000
+                && 1 <= phalf <= 0x8000_0000 && fmul(2, phalf) == 2 * phalf && fadd(2 * phalf, fneg(1)) == 2 * phalf - 1 && 2 * phalf - 1 < 0x1_0000_0000
+                && fmul(1 - d, nh) == (1 - d) * nh
+                && (((phalf as u64) & (nhalf as u64)) as int) < 0x1_0000_0000 && ((((2 * phalf - 1) as u64) & (nhalf as u64)) as int) < 0x1_0000_0000
+                && (((1 - d) * nh == 0 && ((phalf as u64) & (nhalf as u64)) as int == phalf && (((2 * phalf - 1) as u64) & (nhalf as u64)) as int == nhalf)
+                        <==> ilog2_is(n.val(), h)))
+    })
+{
+    broadcast use felt_model::felt_axioms;
+    let h = hint.val();
+    if h <= 63 {
+        lemma_p2_bits(h);
+        lemma_p2_split(h);
+        lemma_p2_consts();
+        let p = p2(h);
+        let nh = n.val() / 0x1_0000_0000; let nl = n.val() % 0x1_0000_0000;
+        assert(fneg(1) == P() - 1);
+        if h < 32 {
+            lemma_ilog_mask(nl as u64, h);
+            assert(fmul(2, p) == 2 * p);
+            assert(fadd(2 * p, fneg(1)) == 2 * p - 1);
+            assert(fmul(1, nh) == nh);
+        } else {
+            lemma_ilog_mask(nh as u64, h - 32);
+            let q = p2(h - 32);
+            assert(p == 0x1_0000_0000 * q);
+            assert(fmul(2, q) == 2 * q);
+            assert(fadd(2 * q, fneg(1)) == 2 * q - 1);
+            assert(fmul(0, nh) == 0);
+        }
+    }
+}
+// ---- extension field product (docs/src/design/stack/field_ops.md, EXT2MUL): (b0, b1) * (a0, a1) = (c0, c1)
+pub open spec fn ext2_c0(b0: int, b1: int, a0: int, a1: int) -> int { fsub(fmul(b0, a0), fmul(fmul(2, b1), a1)) }
+pub open spec fn ext2_c1(b0: int, b1: int, a0: int, a1: int) -> int { fsub(fmul(fadd(b0, b1), fadd(a1, a0)), fmul(b0, a0)) }
